@@ -39,8 +39,8 @@ def strategy(tier, shard):
 
     @st.composite
     def cases(draw):
-        problem = draw(ckpt.problem_descs())
-        solver = draw(ckpt.solver_descs(allow_shuffle=(problem["kind"] == "tabular")))
+        problem = draw(ckpt.problem_descs(rot=shard))
+        solver = draw(ckpt.solver_descs(allow_shuffle=(problem["kind"] == "tabular"), rot=shard))
         if solver["kind"] == "sa" and solver["params"].get("shuffle_states"):
             solver["params"]["convergence_test"] = "max_diff"
         route = "load" if problem["kind"] == "tabular" else draw(st.sampled_from(["restore", "restore", "load"]))
